@@ -91,9 +91,10 @@ def main():
         open(os.path.join(dest, "notes.md"), "w").write(notes)
         meta = {
             "id": sid, "property": prop, "files": files,
-            "origin": "independent sub-agent given only the property text and a scratch worktree of /repo" + (" (round 2: asked for changes that exhaustive small-domain enumeration, reference-model random testing and sanitizers would not find easily)" if prefix == "S2" else ""),
+            "origin": "independent sub-agent given only the property text and a scratch worktree of /repo" + (" (round 2: asked for changes that exhaustive small-domain enumeration, reference-model random testing and sanitizers would not find easily)" if prefix == "S2" else "")
+                      + (" (round 3: asked for three changes of different kinds - cooperating sites, multi-step histories / object pre-states, unusual inputs or build configurations, faults at a particular point, thread interleavings - that would slip past sanitizers, exhaustive small-input enumeration, differential testing through every overload, boundary lengths, object pre-states and allocation-fault injection)" if prefix == "S3" else ""),
             "demo_flags": extra,
-            "needs": "see notes.md (the author's description of the trigger)",
+            "needs": (notes.splitlines()[0].split("needs:", 1)[1].strip() if notes.lower().startswith("needs:") else "see notes.md (the author's description of the trigger)"),
             "confirmed": ran, "demo_output_with_patch": out1[-400:],
             "confirmed_at": time.strftime("%Y-%m-%d %H:%M:%S"),
             "repo_head": subprocess.run(["git", "-C", "/repo", "rev-parse", "HEAD"], stdout=subprocess.PIPE, text=True).stdout.strip(),
